@@ -10,6 +10,8 @@ use roxmltree::{Document, Node};
 ///
 /// This struct does not contain any actual point data,
 /// it just describes the properties and attributes of a point cloud.
+const E57_NAMESPACE: &str = "http://www.astm.org/COMMIT/E57/2010-e57-v1.0";
+
 #[derive(Clone, Debug, Default)]
 #[non_exhaustive]
 pub struct PointCloud {
@@ -145,9 +147,19 @@ impl PointCloud {
             if !n.is_element() {
                 continue;
             }
-            let ns = n.lookup_prefix(n.tag_name().namespace().unwrap_or_default());
+            let uri = n.tag_name().namespace().unwrap_or_default();
+            let ns = n.lookup_prefix(uri);
             let tag = n.tag_name().name();
-            let name = RecordName::from_namespace_and_tag_name(ns, tag)?;
+            let name = if uri.is_empty() || uri == E57_NAMESPACE {
+                RecordName::from_namespace_and_tag_name(ns, tag)?
+            } else {
+                // Records from extension namespaces are never standard records,
+                // even if they use the same name.
+                RecordName::Unknown {
+                    namespace: ns.unwrap_or_default().to_owned(),
+                    name: tag.to_owned(),
+                }
+            };
             let data_type = RecordDataType::from_node(&n)?;
             prototype.push(Record { name, data_type });
         }
